@@ -92,7 +92,13 @@ func (g *gen) body(b *builder, ind, fn, depth int, deferred bool) {
 	for i := 0; i < n && g.budget > 0; i++ {
 		g.budget--
 		g.p.Stmts++
-		switch s.Pick(6, 2, 2, 4, 3, 3, 1, 2, 2, 1, 1) {
+		switch s.Pick(6, 2, 2, 4, 3, 3, 1, 2, 2, 1, 1, 2) {
+		case 11:
+			if !g.inSub && g.feature("globals", 1, 2) {
+				b.emit(ind, "gv += %d; println(%d, gv)", 1+s.N(7), b.id())
+			} else {
+				b.emit(ind, "h.Point(%d)", b.id())
+			}
 		case 0:
 			b.emit(ind, "h.Point(%d)", b.id())
 		case 1:
@@ -217,6 +223,8 @@ func Gen(s *choice.Stream, o Options) *Prog {
 	} else {
 		b.emit(0, "var _ = h.Yes")
 	}
+	b.emit(0, "")
+	b.emit(0, "var gv = 100")
 	b.emit(0, "")
 	// Func-typed package variables have index nfuncs+1.. so that they can call nothing but
 	// sub-package functions; functions are emitted from the last to the
